@@ -168,7 +168,9 @@ def exec_op(env: Env, op, dup_identity=False, op_fault=None):
             stage = "call"
             with win:
                 res = getattr(r, op["m"])(*a, **kw)
-            if res is r and getattr(r, "__dict__", {}).get("immutable", True) is False:
+            if res is r:
+                # the call returned its receiver (in-place mutable-mode call, or a method that returns self):
+                # the slot IS that object; it is judged through the receiver's slot
                 return MutableAlias(op["r"])
             return res
         if k == "join":
